@@ -212,6 +212,9 @@ pub struct SimRing {
     pub sqpoll_auto: bool,
     /// K14: the task a SINGLE_ISSUER ring is bound to (thread id).
     pub submitter_tid: Option<i32>,
+    /// K15: submissions (by user_data) the kernel refuses at submission
+    /// time, with the errno it reports.
+    pub prep_refuse: Vec<(u64, i32)>,
     pub posted: Vec<PostedCqe>,
     pub next_seq: u64,
     /// Requests cancelled by SYNC_CANCEL.
@@ -666,6 +669,7 @@ impl Sim {
             closed: false,
             sqpoll_idle: false,
             sqpoll_auto: false,
+            prep_refuse: Vec::new(),
             submitter_tid: if flags & abi::SETUP_SINGLE_ISSUER != 0 && flags & abi::SETUP_R_DISABLED == 0 { Some(unsafe { libc::gettid() }) } else { None },
             posted: Vec::new(),
             next_seq: 1,
